@@ -254,6 +254,31 @@ chk("C03",
     "machine-checked proof in Coq (real analysis; MathComp bilinear algebra) + formula extraction/verified-enclosure correspondence + ensemble replays",
     "DESIGN.md section 6, C03")
 
+chk("C01",
+    "PARTIAL proof. Coq theorems: balance-heuristic mixture importance sampling is unbiased for sum_x prior L^beta f on "
+    "any finite state space (every number of iterations, unequal batches, any temperature order, any f); the "
+    "self-normalised estimator is the ratio of two quantities with the right expectations; the weight the code "
+    "computes (generated pieces) is that balance-heuristic weight and posterior()'s exp(logw-max)/sum is its "
+    "normalisation; imported ingredients: temperature coherence (C05), kernel invariance with its guards (C03), "
+    "resampling (C06). NOT carried: the finite-particle bias bound, the effect of adaptive step sizes and plug-in "
+    "logZ_t, i.e. the ensemble statement itself - validated on seeded ensembles of real runs (interior, periodic, "
+    "boundary-abutting targets) against known moments within 6 standard errors plus an allowance.",
+    "Trusted: Coq kernel; Reals axioms/classic/funext (named); python translators/harness; the ensemble claim is "
+    "validated, not proved; hard-boundary bias inherited from C03 is a listed known finding.",
+    "machine-checked proof in Coq of the estimator identities (partial) + translator ties + seeded-ensemble validation",
+    "DESIGN.md section 6, C01")
+chk("C02",
+    "PARTIAL proof. Coq theorems: the evidence estimate is ln of the mean unnormalised MIS weight (generated "
+    "pieces), recomputed at beta=1 after the loop and returned by evidence(); that mean weight is unbiased for Z_beta "
+    "when batches are drawn from their tempered laws; independence in trace form: no seeding call on a run path "
+    "resets the stream to a constant and no seed is forwarded, so a run consumes its own seed's stream. NOT carried: "
+    "the 1/sqrt(R) rate and the O(1/N) plug-in bias - validated on seeded ensembles at N=32 and N=128 against an "
+    "analytically known evidence (6 standard errors + allowance; error must not persist with N; distinct seeds distinct results).",
+    "Trusted: Coq kernel; Reals axioms/classic/funext (named); python translators/harness; the ensemble claim is "
+    "validated, not proved.",
+    "machine-checked proof in Coq of the evidence identities and seeding-trace facts (partial) + translator ties + seeded-ensemble validation",
+    "DESIGN.md section 6, C02")
+
 for pid in [f"C{i:02d}" for i in range(1, 21)]:
     if pid not in CHECKS:
         NA[pid] = "check not built yet in this session (planned in DESIGN.md section 6); not claimed"
